@@ -376,3 +376,65 @@ Proof.
       unfold p, matched. destruct (lkey o l); [discriminate|reflexivity]. }
     rewrite A1, A2, <- filter_app. apply Permutation_filter. exact Hperm.
 Qed.
+
+(* ------------------------------------------------------------------ unpaired records: renamed, otherwise unchanged *)
+Definition out_name (o : opts) (names : list bytes) (prefix : bytes) (k : bytes) : bytes :=
+  match rename_lookup names (oj o) k None with Some n => n | None => prefix ++ k end.
+
+Lemma put_fresh k v (r : record) : ~ In k (keys r) -> put k v r = r ++ [(k, v)].
+Proof.
+  induction r as [|[k' v'] r IH]; cbn; intros H; [reflexivity|].
+  destruct (beqb_spec k k') as [->|Hne]; [exfalso; apply H; left; reflexivity|]. f_equal. apply IH. tauto.
+Qed.
+
+Lemma fold_put_renamed (g : bytes -> bytes) (r : record) : forall acc,
+  NoDup (keys acc ++ map g (keys r)) ->
+  fold_left (fun out kv => put (g (fst kv)) (snd kv) out) r acc = acc ++ map (fun kv => (g (fst kv), snd kv)) r.
+Proof.
+  induction r as [|[k v] r IH]; intros acc Hnd; cbn [fold_left map]; [now rewrite app_nil_r|].
+  cbn [fst snd]. cbn [keys map] in Hnd.
+  assert (Hni : ~ In (g k) (keys acc)).
+  { apply NoDup_remove_2 in Hnd. intros H. apply Hnd. apply in_or_app. left. exact H. }
+  rewrite put_fresh by exact Hni. rewrite IH.
+  - now rewrite <- app_assoc.
+  - unfold keys in *. rewrite map_app. cbn [map fst]. rewrite <- app_assoc. exact Hnd.
+Qed.
+
+Lemma rename_lookup_same names k : forall acc,
+  (acc = None \/ acc = Some k) ->
+  rename_lookup names names k acc = None \/ rename_lookup names names k acc = Some k.
+Proof.
+  induction names as [|n names IH]; intros acc H; cbn; [exact H|].
+  apply IH. destruct (beqb_spec k n) as [->|]; auto.
+Qed.
+
+Lemma lists_eqb_true a b : lists_eqb a b = true -> a = b.
+Proof.
+  revert b. induction a as [|x a IH]; intros [|y b]; cbn; try discriminate; [reflexivity|].
+  intros H. apply andb_true_iff in H. destruct H as [H1 H2]. apply beqb_true in H1. subst. f_equal. auto.
+Qed.
+
+Lemma rename_lookup_firstn names : forall outs k acc,
+  rename_lookup names outs k acc = rename_lookup names (firstn (List.length names) outs) k acc.
+Proof.
+  induction names as [|n names IH]; intros [|b outs] k acc; cbn; try reflexivity. apply IH.
+Qed.
+
+Lemma fold_left_ext_ {A B} (f g : A -> B -> A) l : (forall a x, f a x = g a x) -> forall a, fold_left f l a = fold_left g l a.
+Proof. intros H. induction l as [|x l IH]; intros a; cbn; [reflexivity|]. rewrite H. apply IH. Qed.
+
+Theorem unpaired_spec o names prefix r :
+  NoDup (map (out_name o names prefix) (keys r)) ->
+  unpaired o names prefix r = map (fun kv => (out_name o names prefix (fst kv), snd kv)) r.
+Proof.
+  intros Hnd. unfold unpaired.
+  destruct (lists_eqb names (firstn (List.length names) (oj o)) && beqb prefix []) eqn:E.
+  - (* nothing to rename: every output name is the input name *)
+    apply andb_true_iff in E. destruct E as [E1 E2]. apply lists_eqb_true in E1. apply beqb_true in E2. subst prefix.
+    rewrite <- (map_id r) at 1. apply map_ext. intros [k v]. cbn. f_equal. unfold out_name.
+    rewrite rename_lookup_firstn, <- E1.
+    destruct (rename_lookup_same names k None (or_introl eq_refl)) as [H|H]; rewrite H; reflexivity.
+  - rewrite (fold_left_ext_ _ (fun out kv => put (out_name o names prefix (fst kv)) (snd kv) out)).
+    + rewrite fold_put_renamed by exact Hnd. reflexivity.
+    + intros out [k v]. unfold out_name. cbn [fst snd]. destruct (rename_lookup names (oj o) k None); reflexivity.
+Qed.
